@@ -24,7 +24,9 @@ def setup(d, sc):
         if not dec and op["content"] == "bad":
             plain = b"this is not a bzip2 file at all, just text\n" * 3      # any bytes are fine to compress
         good = bz2.compress(plain) if dec else plain
-        content = good if (op["content"] == "good" or not dec) else b"this is not a bzip2 file at all, just text\n" * 3
+        # (every other non-bzip2 operand is several 64 KiB copy buffers long)
+        junk = b"this is not a bzip2 file at all, just text\n" * (3 if i % 2 else 9000)
+        content = good if (op["content"] == "good" or not dec) else junk
         path = os.path.join(d, name)
         target = path
         k = op["kind"]
@@ -53,7 +55,7 @@ def setup(d, sc):
         elif ex == "directory" and not os.path.lexists(opath):
             os.mkdir(opath)
         info.append(dict(name=name, outname=outname, content=content, plain=plain, target=target, kind=k, existing=ex,
-                         bits=op["bits"]))
+                         bits=op["bits"], notbz=(dec and op["content"] != "good")))
     return info
 
 
@@ -92,7 +94,8 @@ def replay(exe, sc, idx):
         before = snapshot(d)
         opts = sc["opts"]
         args = (["-d"] if sc["mode"] == "decompress" else ["-z"]) + ["-" + o for o in sorted(opts)] + ["-n", "2"]
-        r = vlib.run([exe] + args + [x["name"] for x in info], cwd=d, timeout=30)
+        errfull = bool(sc.get("errfull"))
+        r = vlib.run([exe] + args + [x["name"] for x in info], cwd=d, timeout=30, stderr_file="/dev/full" if errfull else None)
         after = snapshot(d)
         if r.timed_out:
             return "hang"
@@ -110,14 +113,14 @@ def replay(exe, sc, idx):
                 want = x["plain"] if dec else None        # compressed output: judged by decoding it
                 if om == "stdout":
                     # -cdf copies what is not bzip2 data through unchanged
-                    stdout_want += (x["plain"] if x["content"] != b"this is not a bzip2 file at all, just text\n" * 3 else x["content"]) if dec else b"\0COMP%d" % i
+                    stdout_want += (x["content"] if x["notbz"] else x["plain"]) if dec else b"\0COMP%d" % i
                 elif om == "regf":
                     src = before[os.path.basename(x["target"])]
                     expect[x["outname"]] = ("out", i, src[2] & 0o777, src[3], src[4])
                     if eff["removes_input"]:
                         expect.pop(x["name"], None)
             elif eff["outcome"] == "fatal":
-                if x["existing"] == "file" and "f" in opts and om == "regf":
+                if x["existing"] == "file" and "f" in opts and om == "regf" and not eff["reason"].startswith("cannot print"):
                     expect.pop(x["outname"], None)        # -f removed it before the failure
         # compare the directory
         for n in sorted(set(expect) | set(after)):
@@ -164,6 +167,8 @@ def replay(exe, sc, idx):
         elif om != "stdout" and r.out:
             return "unexpected data on standard output"
         warn_expected = sc["status"] != 0
+        if errfull:
+            return None                                   # nothing can be printed
         if warn_expected and not r.err:
             return "no diagnostic although the status is %d" % sc["status"]
         if not warn_expected and r.err and "v" not in opts:
